@@ -21,6 +21,7 @@ SHAPES = [
     ("lossless", [[1, 1]], False, Q), ("lossless", [[0, 1], [0, 0]], True, Q), ("lossless", [[1, 1], [0, 1]], False, Q),
     ("lossless", [[1, 1]], False, Q, dict(params=dict(built="merge"))), ("lossless", [[0, 1], [0, 0]], False, Q, dict(params=dict(built="merge"))),
     ("inverse", [[1, 1]], False, Q), ("inverse", [[0, 1], [0, 0]], False, Q), ("inverse", [[1, 0], [0, 1]], True, Q),
+    ("lossless", [[0, 0], [0, 0]], False, Q, dict(params=dict(built="grow"), shard=5)), ("lossless", [[0, 1]], False, Q, dict(params=dict(built="used"))),
     ("inverse", [[0, 0]], False, Q, dict(params=dict(patterns=["^\\d{7}$"]))),
     ("lossless", [[0, 1]], False, Q, dict(params=dict(patterns=["^\\d{7}$"]))),
     ("lossless", [[1, 1], [1, 1]], True, T, dict(budget=1200, shard=6)),
@@ -43,12 +44,17 @@ def build(job):
         u = eng.var("uri")
         q = _s(u)
 
+        wu, wp, wi = eng.var("wuri"), eng.var("wP"), eng.var("wI")      # independent earlier queries
+
         def warm(cv):
-            cur0 = cv.compress(u)
-            if cur0 is not None:
-                cv.expand_all(cur0)
-                cv.expand(cur0)
-            cv.standardize_uri(u)
+            for x in (u, wu):
+                cur0 = cv.compress(x)
+                if cur0 is not None:
+                    cv.expand_all(cur0)
+                    cv.expand(cur0)
+                cv.standardize_uri(x)
+                cv.is_uri(x)
+            cv.expand_pair_all(wp, wi), cv.expand_pair(wp, wi), cv.get_record(wp), cv.standardize_prefix(wp)
         recs, delim, c = fixture(eng, params, warm=warm)
         cur = c.compress(u)
         if cur is None:
